@@ -63,6 +63,10 @@ NEEDS = {
  "C13d": "kmers_from_bytes / kmers_from_ascii on an input of exactly K bases (returns no k-mer)",
  "C14d": "extend on a string whose length is not a multiple of 32 with fewer bases than reach the next multiple, one of them non-A (the partial word is OR-ed in unshifted)",
  "C16d": "AVX2 available, input longer than 32 bytes and not a multiple of 32, a non-A base in the previous block at a lane beyond len % 32 (the tail word keeps stale lanes: == / hash / order differ from from_dna_string)",
+ "C01d": "an unbranched component that closes on itself (pure cycle; odd-K hairpin at the seed): the seed stays available during its own walks and is used twice",
+ "C12c": "DnaString::rc on an odd length (the middle base is never complemented)",
+ "C19b": "unstranded graph, even K, a node longer than K whose terminal k-mer is a palindrome, looked up across the strand flip (graphs built through BaseGraph::add)",
+ "C20d": "GFA export of a node of at least 256 bases (Debug of a slice prints start/len/is_rc instead of bases from 256 up)",
  "C02c": "a join predicate that is reflexive but not constant (colour equality): join_test(kmer_data, kmer_data) always accepts",
 }
 def detection(sid):
